@@ -1,10 +1,11 @@
 //! Property → engines, budgets, evidence.
 
 use crate::eng_codec::{ReadEngine, WriteEngine};
+use crate::eng_flood::FloodEngine;
 use crate::eng_hpack::{self, DecEngine, EncEngine, SplitEngine};
 use crate::eng_pair::PairEngine;
 use crate::eng_raw::{CatalogueServerEngine, HttpEngine};
-use crate::eng_raw2::{AcksEngine, FlowEngine, ShutdownEngine};
+use crate::eng_raw2::{AcksEngine, CapEngine, FlowEngine, ShutdownEngine};
 use crate::sim_pair::Focus;
 use crate::runner::{self, drive, finish, Ctx, Engine, Report, RunStats, Tier};
 use serde_json::{json, Value};
@@ -150,6 +151,17 @@ pub fn run_check(id: &str, tier: Tier) -> i32 {
             }
             assumptions.push("refmodel::http transcribes RFC 9113 §8 / RFC 8441 §4 for the classes C13 names; field value syntax is out of scope".into());
         }
+        "C18" => {
+            parts.push(run_engine(&FloodEngine, &ctx, scale(tier, 1_500, 40_000)));
+            assumptions.push("growth is judged by doubling the flood length (no h2 constant baked in); statistics come from the guarded read-only probe sampled every 8 executor steps".into());
+        }
+        "C16" => {
+            parts.push(run_engine(&CapEngine, &ctx, scale(tier, 10_000, 300_000)));
+            if parts.iter().all(|p| p.failure.is_none()) {
+                // the documented reserve/poll_capacity/send loop under every schedule (held reservations included)
+                parts.push(run_engine(&PairEngine { focus: Focus::Coop }, &ctx, scale(tier, 4_000, 150_000)));
+            }
+        }
         "C14" => {
             parts.push(run_engine(&AcksEngine, &ctx, scale(tier, 8_000, 300_000)));
             assumptions.push("acknowledgement order is demanded per kind (PING acks among themselves, SETTINGS acks among themselves)".into());
@@ -190,6 +202,13 @@ pub fn replay(path: &str) -> i32 {
             crate::eng_raw::dump_raw(&c);
         }
     }
+    if std::env::var("VERIF_DUMP").is_ok() && engine == "flood-doubling" {
+        if let Ok(c) = serde_json::from_value::<crate::eng_flood::FloodCase>(case.clone()) {
+            let mut c = c;
+            c.n = std::env::var("VERIF_DUMP_N").ok().and_then(|s| s.parse().ok()).unwrap_or(c.n);
+            crate::eng_raw::dump_raw(&crate::eng_flood::build(&c, c.n));
+        }
+    }
     if std::env::var("VERIF_DUMP").is_ok() && engine.starts_with("pair-") {
         if let Ok(c) = serde_json::from_value::<crate::sim_pair::PairCase>(case.clone()) {
             crate::eng_pair::dump_pair(&c);
@@ -209,6 +228,8 @@ pub fn replay(path: &str) -> i32 {
         "raw-catalogue-server" => runner::replay_case(&CatalogueServerEngine, case),
         "raw-acks-server" => runner::replay_case(&AcksEngine, case),
         "raw-flow-server" => runner::replay_case(&FlowEngine, case),
+        "raw-capacity-server" => runner::replay_case(&CapEngine, case),
+        "flood-doubling" => runner::replay_case(&FloodEngine, case),
         "raw-shutdown-server" => runner::replay_case(&ShutdownEngine { server: true }, case),
         "raw-goaway-client" => runner::replay_case(&ShutdownEngine { server: false }, case),
         "raw-http-server" => runner::replay_case(&HttpEngine { server: true }, case),
